@@ -17,11 +17,12 @@ from .absint import EvalRaise, EvalReturn, Evaluator, Opaque, Unknown
 from .program import ClassInfo, FuncInfo, Unit, norm
 
 SAFE_METHODS = {
-    dict: {"items", "keys", "values", "get", "copy"},
-    list: {"append", "extend", "copy", "index", "count"},
+    dict: {"items", "keys", "values", "get", "copy", "update", "setdefault", "pop", "clear"},
+    list: {"append", "extend", "copy", "index", "count", "pop", "remove", "insert", "clear", "reverse", "sort"},
     str: {"format", "title", "startswith", "endswith", "lower", "upper", "join", "replace", "split", "strip", "lstrip", "rstrip", "find", "isdigit"},
     tuple: {"index", "count"},
-    set: {"add", "union", "copy", "difference", "intersection", "issubset", "update", "discard"},
+    set: {"add", "union", "copy", "difference", "intersection", "issubset", "issuperset", "isdisjoint", "symmetric_difference", "update", "discard", "remove", "pop"},
+    frozenset: {"union", "copy", "difference", "intersection", "issubset", "issuperset", "isdisjoint", "symmetric_difference"},
 }
 def _frame(*a, **k):
     from .framemodel import Frame
@@ -121,6 +122,7 @@ class Interp:
         self.max_depth = max_depth
         self.calls: List[Tuple[str, Dict[str, Any]]] = []  # (qualname, bound arguments) of every package call seen
         self.module_globals: Dict[str, Dict[str, Any]] = {}
+        self.missing_attr_raises = False  # stand-ins that are complete: a missing attribute is an AttributeError
 
     # ------------------------------------------------------------------ calling
     def bind(self, fn: FuncInfo, args: Sequence[Any], kwargs: Dict[str, Any], selfobj=None, defaults: Optional[Dict[str, Any]] = None) -> Dict[str, Any]:
@@ -248,6 +250,8 @@ class Interp:
             try:
                 return getattr(base, e.attr)
             except AttributeError:
+                if self.missing_attr_raises:
+                    raise EvalRaise("AttributeError", e)
                 raise Unknown(f"attribute {e.attr} of {type(base).__name__} is not modelled")
             except KeyError:
                 raise EvalRaise("KeyError", e)
@@ -374,6 +378,18 @@ class Interp:
         if isinstance(f, ast.Attribute) and isinstance(f.value, ast.Name) and f.value.id == "dict" and f.attr == "fromkeys" and "dict" not in ev.env:
             args, kwargs = self.args_of(ev, c)
             return dict.fromkeys(*args)
+        if isinstance(f, ast.Name) and f.id == "isinstance" and len(c.args) == 2 and "isinstance" not in ev.env:
+            v = ev.eval(c.args[0])
+            names = [norm(x).split(".")[-1] for x in (c.args[1].elts if isinstance(c.args[1], ast.Tuple) else [c.args[1]])]
+            builtin = {"str": str, "int": int, "float": float, "bool": bool, "list": list, "dict": dict, "tuple": tuple, "set": set, "frozenset": frozenset, "bytes": bytes}
+            if isinstance(v, self.native) and not isinstance(v, type):
+                # a stand-in is an instance of the stand-in classes only, never of a builtin or library type
+                if all(n in builtin or n in ("Path", "PurePath", "IOBase", "TextIOBase", "Number", "Basic") for n in names):
+                    return False
+            elif not isinstance(v, Opaque) and all(n in builtin for n in names):
+                return isinstance(v, tuple(builtin[n] for n in names))
+            elif not isinstance(v, Opaque) and isinstance(v, (str, int, float, bool, list, dict, tuple, set, frozenset, type(None))) and all(n in builtin or n in ("Path", "PurePath") for n in names):
+                return isinstance(v, tuple(builtin[n] for n in names if n in builtin))
         if isinstance(f, ast.Name) and f.id == "print" and "print" not in ev.env:
             for a in c.args:
                 ev.eval(a)
@@ -411,6 +427,9 @@ class Interp:
                 args, kwargs = self.args_of(ev, c)
                 return self.call_value(target, args, kwargs, ev, c)
             if isinstance(target, type) and issubclass(target, self.native):
+                args, kwargs = self.args_of(ev, c)
+                return self._native_call(target, args, kwargs, c)
+            if isinstance(target, self.native) and callable(target):
                 args, kwargs = self.args_of(ev, c)
                 return self._native_call(target, args, kwargs, c)
         return NotImplemented
